@@ -7,6 +7,7 @@ import (
 	"fmt"
 	"math/rand"
 	"os"
+	"path/filepath"
 	"regexp"
 	"runtime"
 	"runtime/debug"
@@ -34,7 +35,17 @@ type env struct {
 	rx   []byte // receive buffer (capacity of the packet loop's buffer)
 }
 
+// scratchDir is where temporary files go: the directory of the output / case file, which lies in the
+// check's scratch directory and is removed with it (workers that are killed cannot clean up themselves).
+var scratchDir = ""
+
 func newEnv() (*env, error) {
+	switch {
+	case *fOut != "":
+		scratchDir = filepath.Dir(*fOut)
+	case *fCase != "":
+		scratchDir = filepath.Dir(*fCase)
+	}
 	vh.Quiet()
 	if os.Getenv("VERIF_STDOUT") == "" {
 		if f, err := os.OpenFile(os.DevNull, os.O_WRONLY, 0); err == nil {
@@ -49,7 +60,7 @@ func newEnv() (*env, error) {
 	if e.arp, err = arp_spoofer.New(e.s); err != nil {
 		return nil, err
 	}
-	if e.tmp, err = os.MkdirTemp("", "walkdrv-lease-"); err != nil {
+	if e.tmp, err = os.MkdirTemp(scratchDir, "walkdrv-lease-"); err != nil {
 		return nil, err
 	}
 	cfg := dhcp4_spoofer.Config{Mode: dhcp4_spoofer.ModeSecondaryServer, DNSServer: e.u.Cfg.RouterIP,
@@ -412,14 +423,17 @@ func runOne() {
 		os.Exit(2)
 	}
 	defer e.close()
+	if in.Vector.JID != nil {
+		in.Vector.ID = *in.Vector.JID
+	}
 	cases := genCases(&in.Vector, in.Seed, in.K, in.Mut)
 	if in.C >= len(cases) {
 		fmt.Fprintln(os.Stderr, "case index out of range")
 		os.Exit(2)
 	}
-	f, _ := os.CreateTemp("", "walkone")
+	f, _ := os.CreateTemp(scratchDir, "walkone")
 	defer os.Remove(f.Name())
-	cur, _ := os.CreateTemp("", "walkcur")
+	cur, _ := os.CreateTemp(scratchDir, "walkcur")
 	defer os.Remove(cur.Name())
 	r := &runner{e: e, out: bufio.NewWriter(f), outF: f, cur: cur, sum: newSummary(), watchdog: *fWatchdog, skip: map[string]bool{}}
 	// in this mode a hang is reported by the watchdog on the saved stdout and the process exits 3
